@@ -1,4 +1,52 @@
-# properties currently claimed (id -> level text / technique); everything else is listed under not_applicable
+# properties currently claimed: id -> level text / technique / the view modules the property depends on
+# (obligations tagged with the id are *deciding*; any other failed obligation in these modules is a *prerequisite*:
+#  the proof of the property is then unavailable and the bounded search on the real crate decides, see DESIGN.md 2.5)
+
+ALL = '*'
+WINDOWED = ['sma', 'cumulative', 'min', 'max', 'welford_online', 'hl_normalizer', 'roc', 'binary_entropy',
+            'variance_stabilizing_transformation', 'vsct']
+EHLERS = ['super_smoother', 'roofing_filter', 'laguerre_filter', 'laguerre_rsi', 'cyber_cycle', 'trend_flex', 're_flex',
+          'ehlers_fisher_transform', 'polarized_fractal_efficiency']
+
 CLAIMS = {
+    'C01': dict(views=ALL, technique='Verus contracts on every update/last: forward-once (E1), silent-inner frame (E2), own-step as a function of own state and inner output only (E3 signature), gating of combinators; generic chain lemma for an arbitrary inner view type',
+                text='Proof for all inner view types at once (the inner view is a type parameter with only the trait contract known), all window lengths and inputs. Bit-identity is claimed under the scalar model: both sides perform the same operations on equal operands.'),
+    'C02': dict(views=WINDOWED + ['echo'], technique='Verus: window invariants (aggregate == definition recomputed from the abstract window), wpush own-step, history lemma',
+                text='Proof: update refines "push into the window of the N most recent values" and every aggregate equals its definition over that window, for all N, all histories.'),
+    'C03': dict(views=WINDOWED + ['center_of_gravity', 'correlation_trend_indicator', 'noise_elimination_technology', 'rsi', 'my_rsi', 'alma', 'polarized_fractal_efficiency', 'echo'],
+                technique='Verus lemmas over the contracts: the abstract own state after >= K delivered values is a function of the last K values',
+                text='Proof by induction over histories that the abstract window (and the predecessor for change-based views) is determined by the last K values; outputs are functions of that state by the out contracts.'),
+    'C04': dict(views=['sma', 'ema', 'alma', 'echo'], technique='Verus: refinement of the mean / EMA recursion / Gaussian-weighted mean, plus averaging lemmas',
+                text='Proof that Sma/Ema/Alma refine their defining formulas and that these are genuine averages (interval, constant, monotone, affine).'),
+    'C05': dict(views=['rsi', 'my_rsi', 'echo'], technique='Verus: gains/losses window invariants, RSI identity, corollary lemmas',
+                text='Proof that Rsi == 100G/(G+L) and MyRSI == (G-L)/(G+L) over the N most recent changes, for all N and histories.'),
+    'C06': dict(views=['center_of_gravity', 'correlation_trend_indicator', 'noise_elimination_technology', 'echo'], technique='Verus: loop invariants relating the real loops to recursive sums (Pearson computational form, Kendall pair sums, weighted sums)',
+                text='Proof that the three indicators equal their defining sums over the window.'),
+    'C07': dict(views=['rsi', 'my_rsi', 'laguerre_rsi', 'hl_normalizer', 'noise_elimination_technology', 'binary_entropy', 'ehlers_fisher_transform', 'welford_online', 'welford_rolling',
+                       'drawdown', 'tanh', 'gte', 'lte', 'min', 'max', 'sma', 'center_of_gravity', 'echo'],
+                technique='Verus: range postconditions / invariants on the real last()/update(), exact-arithmetic bounds',
+                text='Proof of the range clauses listed in the evidence; the clauses for CTI, Vsct, PFE, Alma-vs-Min/Max are not proved (see DESIGN.md) and are covered by the bounded search only.'),
+    'C08': dict(views=ALL, technique='Verus: readiness as a function of the abstract state, silent-inner frame, preconditions of / sqrt ln discharged from the guards in the code',
+                text='Proof that every partial operation is guarded (no NaN/inf in exact arithmetic), that readiness is monotone, and of the documented warm-up lengths.'),
+    'C09': dict(views=['ema', 'laguerre_filter', 'super_smoother', 'roofing_filter', 'cyber_cycle', 'trend_flex', 're_flex', 'laguerre_rsi', 'ehlers_fisher_transform', 'echo'],
+                technique='Verus: coefficient contracts (pole locations / Jury conditions) for every window length, one-step contraction lemmas',
+                text='Proof of the per-step stability facts for symbolic N; the epsilon-N limit statements are not formalised.'),
+    'C10': dict(views=['sma', 'ema', 'alma', 'cumulative', 'laguerre_filter', 'super_smoother', 'roofing_filter', 'cyber_cycle', 'echo'],
+                technique='Verus lemmas: own-step and out are linear maps of (state, input)',
+                text='Proof of one-step superposition lifted to histories by induction.'),
+    'C11': dict(views=EHLERS + ['echo'], technique='Verus: update refines the difference equations written from the property text; coefficient contracts on constructors',
+                text='Proof that every update equals one step of the stated equations, for all N and inputs.'),
+    'C12': dict(views=ALL, technique='Verus lemmas over closed forms / own-step: scale, offset and sign equivariance',
+                text='Proof of invariance lemmas for the views listed in the evidence.'),
+    'C13': dict(views=['welford_rolling', 'drawdown', 'ln_return', 'echo'], technique='Verus: rolling own-step contracts + history lemmas against batch definitions',
+                text='Proof that the rolling state equals the batch statistic of the whole history.'),
+    'C14': dict(views=['add', 'subtract', 'multiply', 'divide', 'tanh', 'gte', 'lte', 'echo', 'constant'], technique='Verus: out is a function of the children\'s current outputs only; Kani loop-free bit-exact proofs for selection/add/sub',
+                text='Proof of pointwise statelessness; bit-exactness by complete loop-free CBMC proofs where cheap.'),
+    'C15': dict(views=ALL, technique='Verus built-in safety obligations (index, unwrap, arithmetic overflow/underflow, assert!/debug_assert!) on every extracted function under the representation invariants',
+                text='Proof of panic-freedom for every view, every accepted window length, every input history (in the scalar model).'),
+    'C17': dict(views=ALL, technique='Verus: update is a function of (abstract state, input) by contract; last(&self) has a functional contract over an immutable borrow; structural scan for interior mutability; ownership-based clone independence',
+                text='Proof of determinism and purity; clone independence is structural (owned-data whitelist) - stated, not proved by Verus.'),
+    'C18': dict(views=ALL, technique='Verus: buffer-length invariants generated for every Vec/VecDeque field found in /repo',
+                text='Proof that every buffer length is bounded by a function of the window length after every update.'),
 }
 NOT_APPLICABLE = {}
